@@ -555,7 +555,7 @@ type c15Spec struct {
 
 type c15Harness struct{}
 
-var c15Kinds = []string{"trunc", "trunc", "byte", "byte", "u32max", "u32max", "u32zero", "u16max", "dup", "drop", "ins", "type", "magic", "lenfield"}
+var c15Kinds = []string{"trunc", "trunc", "byte", "byte", "u32max", "u32max", "u32zero", "u16max", "dup", "drop", "ins", "type", "magic", "lenfield", "lenfield", "resumeinfo", "resumeinfo"}
 
 func (c15Harness) Gen(r *verifsim.SplitMix, tier string, idx int) any {
 	b := txSpec{Prop: "C15", Seed: r.Next(), ContentSeed: r.Next()}
@@ -570,7 +570,12 @@ func (c15Harness) Gen(r *verifsim.SplitMix, tier string, idx int) any {
 	b.SegMax = []int{7, 200, 65536}[r.Intn(3)]
 	nf := 1 + r.Intn(3)
 	for i := 0; i < nf; i++ {
-		b.Files = append(b.Files, txFile{P: fmt.Sprintf("f%d.bin", i), N: r.Intn(3*int(b.Chunk) + 1)})
+		n := r.Intn(3*int(b.Chunk) + 1)
+		if r.Chance(1, 3) {
+			n = (9 + r.Intn(12)) * 64 // enough chunks for multi-byte bitmaps
+			b.Chunk = 64
+		}
+		b.Files = append(b.Files, txFile{P: fmt.Sprintf("f%d.bin", i), N: n})
 	}
 	b.Strat = verifsim.Strategy{Kind: []string{"rand", "fifo", "weighted"}[r.Intn(3)], Seed: r.Next(), MaxW: 6}
 	sp := c15Spec{Base: b, Target: []string{"recv", "recv", "send"}[r.Intn(3)], CloseConn: r.Chance(1, 2), LingerMs: []int{0, 500, 3000}[r.Intn(3)]}
@@ -727,6 +732,54 @@ func applyMut(b []byte, m c15Mut, isControl, withHeader bool, r *verifsim.SplitM
 	case "magic":
 		out[m.Val%4%len(out)] ^= 0x20
 		return out, "magic"
+	case "resumeinfo":
+		// a well-formed FileResumeInfo whose counts are inconsistent
+		if !isControl || withHeader {
+			return out, ""
+		}
+		for _, o := range recordBoundaries(b, false) {
+			if b[o] != controlTypeFileResumeInfo || int(o)+3 > len(b) {
+				continue
+			}
+			idl := int(b[o+1])<<8 | int(b[o+2])
+			tot := int(o) + 3 + idl + 8 // TotalChunks
+			bl := tot + 4              // bitmap length
+			if bl+4 > len(b) {
+				break
+			}
+			n := int(b[bl])<<24 | int(b[bl+1])<<16 | int(b[bl+2])<<8 | int(b[bl+3])
+			bm := bl + 4
+			if bm+n > len(b) {
+				break
+			}
+			put32 := func(at, v int) { out[at], out[at+1], out[at+2], out[at+3] = byte(v>>24), byte(v>>16), byte(v>>8), byte(v) }
+			switch m.Val % 5 {
+			case 0: // bitmap one byte short
+				if n < 2 {
+					continue
+				}
+				put32(bl, n-1)
+				return append(out[:bm+n-1], b[bm+n:]...), "resumeinfo:short-bitmap"
+			case 1: // bitmap one byte long
+				put32(bl, n+1)
+				return append(out[:bm+n], append([]byte{0xFF}, b[bm+n:]...)...), "resumeinfo:long-bitmap"
+			case 2: // more chunks announced than the bitmap covers
+				put32(tot, 0x00FFFFFF)
+				return out, "resumeinfo:total-chunks"
+			case 3: // verified chunk far out of range, every bit set
+				for i := 0; i < n; i++ {
+					out[bm+i] = 0xFF
+				}
+				put32(bm+n, 0x7FFFFFFF)
+				return out, "resumeinfo:verified-out-of-range"
+			case 4: // all chunks claimed present
+				for i := 0; i < n; i++ {
+					out[bm+i] = 0xFF
+				}
+				return out, "resumeinfo:all-present"
+			}
+		}
+		return out, ""
 	case "lenfield":
 		// absurd values in the length-bearing fields of the first records / frames
 		if isControl && withHeader && len(out) >= 8 && m.Val%3 != 0 {
@@ -743,6 +796,10 @@ func applyMut(b []byte, m c15Mut, isControl, withHeader bool, r *verifsim.SplitM
 				fs := int(o) + 3 + pl
 				if fs+12 > len(out) {
 					break
+				}
+				if m.Val%4 == 2 {
+					copy(out[fs+8:fs+12], []byte{0, 0, 0, 0})
+					return out, "lenfield:chunksize0"
 				}
 				if m.Val%2 == 0 {
 					copy(out[fs+8:fs+12], []byte{0xFF, 0xFF, 0xFF, byte(m.Val)})
